@@ -85,6 +85,9 @@ type TaintResult struct {
 	EscapeSrcs []Pos  `json:"escape_srcs"`
 	NEscapes   int    `json:"n_escapes"`
 	Err        string `json:"err,omitempty"`
+	// Backtrace only: number of traces and trace-shape defects.
+	Traces int      `json:"traces,omitempty"`
+	Shape  []string `json:"shape,omitempty"`
 }
 
 // LoadConfig loads a yaml config file the way the CLI does.
